@@ -1,6 +1,8 @@
 package main
 
 import (
+	"log"
+	"io"
 	"encoding/hex"
 	"encoding/json"
 	"fmt"
@@ -166,6 +168,8 @@ func c01RunMulti(in *c01In) Result {
 
 func c01Run(in0 interface{}) Result {
 	in := in0.(*c01In)
+	// serveHTTP logs "No such site" with the raw Host text; ill-formed UTF-8 there must not reach the driver's pipe
+	log.SetOutput(io.Discard)
 	if len(in.Groups) > 0 {
 		return c01RunMulti(in)
 	}
@@ -279,6 +283,19 @@ func c01Run(in0 interface{}) Result {
 	simple := c01Simple.MatchString(up) && in.Target == ""
 	term := cApp("CRoute", cList(siteTerms), cStrList(xf), cStr(string(in.Host)), cStr(up), cN(uint64(in.Proto)), cBool(simple),
 		cNList(trace), cN(uint64(rec.Code)), cStr(gotPrefix), cStr(gotPath))
+	if in.Target == "" && !c01ASCII(string(in.Host)) && !strings.Contains(string(in.Host), "/") && strings.HasPrefix(up, "/") {
+		// a Host with non-ASCII bytes: judged by the model with Go's Unicode-aware folding (CRouteU)
+		term = cApp("CRouteU", cList(siteTerms), cStrList(xf), cStr(string(in.Host)), cStr(up), cN(uint64(in.Proto)),
+			cNList(trace), cN(uint64(rec.Code)), cStr(gotPrefix), cStr(gotPath))
+		cls := "valid"
+		if !utf8.ValidString(string(in.Host)) {
+			cls = "illformed"
+		} else if strings.ToLower(string(in.Host)) != c01LowerASCII(string(in.Host)) {
+			cls = "upper"
+		}
+		return Result{Term: term, Obs: map[string]interface{}{"trace": trace, "status": rec.Code, "prefix": gotPrefix, "path": gotPath},
+			Sig: "route:nonascii-host", Nontrivial: len(in.Sites) >= 2, Class: fmt.Sprintf("route:nonascii-host:%s:hit=%v", cls, len(trace) > 0)}
+	}
 	sig := "route"
 	brack := strings.Contains(string(in.Host), "[")
 	multi := !c01ASCII(up)
@@ -319,6 +336,16 @@ func c01Run(in0 interface{}) Result {
 	}
 	return Result{Term: term, Obs: map[string]interface{}{"trace": trace, "status": rec.Code, "prefix": gotPrefix, "path": gotPath},
 		Sig: sig, Nontrivial: len(in.Sites) >= 2, Class: fmt.Sprintf("%s%s:hit=%v", sig, feat, len(trace) > 0)}
+}
+
+func c01LowerASCII(s string) string {
+	b := []byte(s)
+	for i, c := range b {
+		if c >= 'A' && c <= 'Z' {
+			b[i] = c + 32
+		}
+	}
+	return string(b)
 }
 
 func c01ASCII(s string) bool {
@@ -982,13 +1009,44 @@ func c01GenSpell(r *Rand, scale int, protoOf func() int) []interface{} {
 			}
 		}
 	}
+	// (K) host names with non-ASCII text: upper/lower case beyond A-Z (Latin-1, Latin Extended-A, Greek, Cyrillic, KELVIN
+	// SIGN, dotted capital I), caseless scripts, ill-formed UTF-8 (stray bytes, truncated sequences, surrogates)
+	declK := []string{"CAF\xc3\x89.com", "caf\xc3\xa9.com", "\xce\x91\xce\xb2.gr", "\xd0\x96.ru", "k.com", "i.com", "a\xff.com", "a\xfe.com",
+		"\xe6\x97\xa5\xe6\x9c\xac.jp", "*.caf\xc3\xa9.com", "\xc4\x80.com", "*.\xce\xb1\xce\xb2.gr", "a\xef\xbf\xbd.com", "\xd0\x81.ru", "K.com"}
+	reqK := []string{"caf\xc3\x89.COM", "CAF\xc3\xa9.com:80", "\xce\xb1\xce\x92.gr", "\xd0\xb6.ru", "\xe2\x84\xaa.com", "\xc4\xb0.com", "a\xfe.com", "a\xff.COM",
+		"a\xc3.com", "w.CAF\xc3\x89.com:80", "\xc4\x81.com", "\xed\xa0\x80.com", "\xf0\x9f\x98\x80.com", "\xe6\x97\xa5\xe6\x9c\xac.JP", "W.\xce\x91\xce\x92.gr",
+		"a\xef\xbf\xbd.com", "\xd1\x91.ru", "\xe2\x84\xab.com", "\xc3\x9f.com", "\xc3\x97.com", "a\x80\x80.com", "\xe2\x84\xaa.COM:2015"}
+	for i := 0; i < 220*scale; i++ {
+		var sites []c01Site
+		seen := map[string]bool{}
+		for _, j := range r.Perm(len(declK))[:r.Range(2, 4)] {
+			lk := strings.ToLower(declK[j])
+			if seen[lk] {
+				continue
+			}
+			seen[lk] = true
+			sites = append(sites, c01Site{Key: c01B(declK[j] + r.Pick([]string{"", "", ":2015", "/x"}))})
+		}
+		if r.Chance(30) {
+			sites = append(sites, c01Site{Key: c01B(r.Pick([]string{":2015", "*.com", "*.*"}))})
+		}
+		host := r.Pick(reqK)
+		if r.Chance(50) { // aim at a declared one, re-cased by Go's own ToUpper/ToLower where that is well-formed
+			host = c01KeyHost(string(sites[r.Intn(len(sites))].Key))
+			host = strings.Replace(host, "*", "w", -1)
+			if utf8.ValidString(host) && r.Bool() {
+				host = strings.ToUpper(host)
+			}
+		}
+		out = append(out, &c01In{Sites: sites, Host: c01B(host), Path: c01B(r.Pick([]string{"/", "/x", "/x/y", "/y"})), Proto: protoOf()})
+	}
 	return out
 }
 
 func init() {
 	register(&Property{
 		ID: "C01", Imports: "V.Lib V.GoPath V.GoNet V.C01_Model", Judge: "judge",
-		Rule:   "httpserver.NewServer + Server.ServeHTTP with a marker middleware per site that records the ordered list of sites whose handlers ran, the path_prefix context value and the trimmed path; streams: (A) mixed sets of 1-5 addresses over exact/wildcard/catch-all/IPv4/IPv6/punycode hosts x ports x mixed case x path prefixes (multi-byte UTF-8, truncated sequences, percent text), optional fallback flag, occasional repeated address, re-run permuted; (B) wildcard patterns of every depth for one name declared in EVERY order; (C) 2-5 sites sharing a host with nested byte-wise path prefixes plus a decoy host owning a longer prefix; (D) IPv6 literals with/without brackets and ports on both sides; (E) raw request-targets decoded by url.ParseRequestURI; (F) built-in catch-all hosts next to designated fallback sites in every mix; (G) 2-3 listeners (site groups with zero, one or two designated fallback sites of different names) created one after the other in ONE process by NewServer, sometimes one of them created again as a reload does, and only then requests to EVERY listener (unknown hosts, the other listeners' fallback host names, declared hosts), each judged against its own listener's site group; (H) request SEQUENCES (4-9 requests) against ONE running server, sometimes two listeners, over site sets in which a host (exact, wildcard, catch-all, designated fallback) has only sites with non-root path prefixes next to hosts with a root site: miss first (uncovered path, unknown host, respelled host) then hits; hits, miss, the same hits again; alternating across hosts and listeners; repeated requests; every answer judged by the per-request spec; (I) SPELLINGS: origin-form request-targets handed RAW to the Coq model (which decodes them itself; Go's URL.Path is compared with the model's decoding and checked by a lock-step spelling clause): for one decoded path 4-5 raw spellings (literal, every octet escaped, random octets escaped with hex digits of random case, the '/' inside a prefix as %2F/%2f, a query appended) against sites sharing a host whose prefixes (written in the Casketfile with random octets percent-encoded too) contain '/', spaces, '%', non-ASCII and invalid UTF-8 octets, plus malformed targets (short escape, non-hex digit, control byte: must be rejected by both); (J) ORDER: one site set (wildcards of 1-4 leading labels, catch-alls, nested prefixes) handed to NewServer in 3-4 random orders, the same 3 requests to every order. Requests aim at declared hosts (wildcards instantiated, one label more/less, random letter case, ports) or foreign hosts; paths are declared prefixes extended/truncated/bit-flipped with arbitrary bytes; protocol major 0-3. non-trivial = at least two sites; distinct = distinct case term",
+		Rule:   "httpserver.NewServer + Server.ServeHTTP with a marker middleware per site that records the ordered list of sites whose handlers ran, the path_prefix context value and the trimmed path; streams: (A) mixed sets of 1-5 addresses over exact/wildcard/catch-all/IPv4/IPv6/punycode hosts x ports x mixed case x path prefixes (multi-byte UTF-8, truncated sequences, percent text), optional fallback flag, occasional repeated address, re-run permuted; (B) wildcard patterns of every depth for one name declared in EVERY order; (C) 2-5 sites sharing a host with nested byte-wise path prefixes plus a decoy host owning a longer prefix; (D) IPv6 literals with/without brackets and ports on both sides; (E) raw request-targets decoded by url.ParseRequestURI; (F) built-in catch-all hosts next to designated fallback sites in every mix; (G) 2-3 listeners (site groups with zero, one or two designated fallback sites of different names) created one after the other in ONE process by NewServer, sometimes one of them created again as a reload does, and only then requests to EVERY listener (unknown hosts, the other listeners' fallback host names, declared hosts), each judged against its own listener's site group; (H) request SEQUENCES (4-9 requests) against ONE running server, sometimes two listeners, over site sets in which a host (exact, wildcard, catch-all, designated fallback) has only sites with non-root path prefixes next to hosts with a root site: miss first (uncovered path, unknown host, respelled host) then hits; hits, miss, the same hits again; alternating across hosts and listeners; repeated requests; every answer judged by the per-request spec; (I) SPELLINGS: origin-form request-targets handed RAW to the Coq model (which decodes them itself; Go's URL.Path is compared with the model's decoding and checked by a lock-step spelling clause): for one decoded path 4-5 raw spellings (literal, every octet escaped, random octets escaped with hex digits of random case, the '/' inside a prefix as %2F/%2f, a query appended) against sites sharing a host whose prefixes (written in the Casketfile with random octets percent-encoded too) contain '/', spaces, '%', non-ASCII and invalid UTF-8 octets, plus malformed targets (short escape, non-hex digit, control byte: must be rejected by both); (J) ORDER: one site set (wildcards of 1-4 leading labels, catch-alls, nested prefixes) handed to NewServer in 3-4 random orders, the same 3 requests to every order; (K) Hosts with non-ASCII text (upper/lower case in Latin-1, Latin Extended-A, Greek, Cyrillic, KELVIN SIGN, dotted capital I; caseless scripts; ill-formed UTF-8: stray bytes, truncated sequences, surrogates) against declared hosts of the same kinds, judged by the model with Go's Unicode-aware folding (CRouteU). Requests aim at declared hosts (wildcards instantiated, one label more/less, random letter case, ports) or foreign hosts; paths are declared prefixes extended/truncated/bit-flipped with arbitrary bytes; protocol major 0-3. non-trivial = at least two sites; distinct = distinct case term",
 		Gen:    c01Gen,
 		Decode: func(raw json.RawMessage) (interface{}, error) { in := &c01In{}; return in, json.Unmarshal(raw, in) },
 		Run:    c01Run,
